@@ -168,7 +168,15 @@ class Chart(DictPropertiesEqMixin, DictReprTruncatedSequencesMixin):
             elif header_tag not in cls._required_header_tags:
                 logger.warning(cls._unhandled_data_section_log_msg_tmpl.format(header_tag))
 
-        return cls(metadata, global_events_track, sync_track, instrument_tracks)
+        # Hand the chart a plain dict: a defaultdict would silently grow an empty entry (and
+        # change equality with an identically parsed chart) whenever an absent instrument is
+        # looked up through ``chart[instrument]`` or ``notes_per_second``.
+        return cls(
+            metadata,
+            global_events_track,
+            sync_track,
+            InstrumentTrackMap(dict(instrument_tracks)),
+        )
 
     @classmethod
     def _partition_lines_by_data_section(cls, lines: Iterable[str]) -> dict[str, Iterable[str]]:
